@@ -213,12 +213,19 @@ def normal_cfg(body, extra_cut_blocks=()):
 def kind_switch(body, fb):
     """the SwitchInt whose discriminant is Code::get_type() of the current command"""
     org = Origins(body, fb)
+    best = None
     for bi, b in enumerate(body.blocks):
         t = b["term"]
         if t["k"] == "switch" and not b["cleanup"]:
             o = org.of_operand(t["x"], bi, "t")
             if o[0] == "call" and o[1] == C + "get_type":
-                return bi, t
+                # the dispatch is the switch with the most distinct targets (a helper `match kind {0 => .., _ => ..}`
+                # computed in front of it is not); first one wins on ties
+                n = len({bb for _, bb in t["arms"]} | {t["otherwise"]})
+                if best is None or n > best[0]:
+                    best = (n, bi, t)
+    if best is not None:
+        return best[1], best[2]
     return None, None
 
 
